@@ -170,7 +170,7 @@ def build(P):
                 msgs.append("a=%d b=%d: a DIV b=%d, a MOD b=%d violates a=(a DIV b)*b+(a MOD b), |a MOD b|<|b|" % (a, b, q, rem))
         return msgs[:3]
 
-    C02 = dict(cases=c02_cases, oracle=c02_oracle, compare=("out", "diag"),
+    C02 = dict(cases=c02_cases, model_is_oracle=("out", "exit", "files", "termination"), oracle=c02_oracle, compare=("out", "diag"),
                rule="bare expressions entered in REPL sessions (echo shows value and type): every ordered operator pair with operand triples, "
                     "DIV/MOD grid and 64-bit boundary values (law checked on the real output by the harness), every (operator, type, type) "
                     "combination, random typed trees to depth 6 with minimal/redundant parentheses; a unit is one entry; non-trivial = distinct entry text "
@@ -258,7 +258,7 @@ def build(P):
                 bad.append("RAND(%d) = %r outside [0, %d]" % (b, v, max(b, 0)))
         return bad[:3]
 
-    C17 = dict(cases=c17_cases, oracle=c17_oracle, compare=("out", "diag"), builds=["normal", "san"],
+    C17 = dict(cases=c17_cases, model_is_oracle=("out", "exit", "files", "termination"), oracle=c17_oracle, compare=("out", "diag"), builds=["normal", "san"],
                rule="built-in calls as REPL entries: all strings up to length 3 (quick) / 4 (thorough) over {a,Z,0,blank,.,-} with every (i,n) in [-2,len+2]^2 "
                     "for LEFT/RIGHT/MID and the LEFT&RIGHT identity, all 256 codes for the character functions, digit/point strings for the conversions plus "
                     "non-numerals, random long strings, RAND draws per bound (range judged by the harness); unit = one entry, non-trivial = distinct entry",
@@ -441,7 +441,7 @@ def build(P):
                 if len(msgs) >= 3: break
         return msgs
 
-    C19 = dict(cases=c19_cases, oracle=c19_oracle, compare=("out", "diag", "exit"), builds=["normal", "san"],
+    C19 = dict(cases=c19_cases, model_is_oracle=("out", "exit", "files", "termination"), oracle=c19_oracle, compare=("out", "diag", "exit"), builds=["normal", "san"],
                rule="every enum type with 1..8 names, every start, k in [-40,40] (quick: a subset) and 64-bit boundary k on either side of + and right of -, "
                     "as REPL entries (expected position computed by the harness); every ordered pair of distinct enum sizes 1..4 x 7 store channels as programs "
                     "(must be a runtime error, target unchanged); procedure-level definitions called repeatedly; unit = one arithmetic entry / one program")
